@@ -4,6 +4,7 @@
 From Coq Require Import String Ascii List Bool Arith NArith ZArith Lia Sorted.
 From Raven Require Import Base.GoStr Base.GoStrFacts Model.Search Model.SearchText Spec.Search Model.SearchClass
   Proof.SearchTok Proof.SearchAtoms Proof.SearchDate Proof.SearchEval Proof.SearchToks Proof.SearchExact.
+From Raven Require Model.SeqSet Spec.SeqSet.
 Import ListNotations.
 Local Open Scope Z_scope.
 Local Arguments Ascii.eqb : simpl never.
@@ -42,12 +43,63 @@ Proof.
     cbn [depth key_tokens]. fold (pdepth l). cbn [tokens_measure fold_right length]. rewrite app_length. cbn [length]. lia.
 Qed.
 
-Lemma eval_tokens_prog nseq maxuid mb i sm ks :
+Lemma eval_tokens_prog mb i sm ks :
   In (i, sm) (numbered mb) -> mb_ok mb = true -> forallb wf_key ks = true -> classify ks mb = None ->
-  eval_tokens go_text (to_msg (i, sm)) (prog_tokens ks) = Some (spec_all nseq maxuid ks i sm).
+  eval_tokens go_text (to_msg mb (i, sm)) (prog_tokens ks) = Some (spec_all (Z.of_nat (length mb)) (last_uid mb) ks i sm).
 Proof.
-  intros Hin Hmb W C. unfold eval_tokens. apply (prog_step nseq maxuid mb i sm Hin Hmb ks W C).
+  intros Hin Hmb W C. unfold eval_tokens. apply (prog_step mb i sm Hin Hmb ks W C).
   apply pdepth_measure. apply Forall_forall. intros k _. apply depth_measure.
+Qed.
+
+(** ** the listing: HandleSearch's max fields, the highest UID is the last one *)
+Lemma numbered_length {A} (l : list A) : forall i, length (number_from i l) = length l.
+Proof. induction l as [|x l IH]; intros i; [reflexivity|]. cbn. now rewrite IH. Qed.
+
+Lemma last_uid_map n u l : forall i d0 d1, m_uid d0 = s_uid d1 ->
+  m_uid (last (map (to_msg_in n u) (number_from i l)) d0) = s_uid (last l d1).
+Proof.
+  induction l as [|x l IH]; intros i d0 d1 E; [exact E|].
+  destruct l as [|y l]; [reflexivity|].
+  change (last (x :: y :: l) d1) with (last (y :: l) d1).
+  change (number_from i (x :: y :: l)) with ((i, x) :: number_from (i + 1) (y :: l)).
+  cbn [map]. change (last (?a :: map (to_msg_in n u) (number_from (i + 1) (y :: l))) d0)
+    with (last (map (to_msg_in n u) (number_from (i + 1) (y :: l))) d0).
+  now apply IH.
+Qed.
+
+Lemma fill_max_to_msgs mb : fill_max (to_msgs mb) = to_msgs mb.
+Proof.
+  unfold fill_max, to_msgs, to_msg. rewrite map_length. unfold numbered. rewrite numbered_length.
+  rewrite (last_uid_map _ _ mb 1 (mk_msg 0 0 [] [] (0, 0, 0) 0 0) (mk_smsg 0 [] [] (0, 0, 0)) eq_refl). fold (last_uid mb).
+  rewrite map_map. apply map_ext. intros [i m]. reflexivity.
+Qed.
+
+Lemma asc_last l : Spec.SeqSet.ascendingb l = true -> forall x, (forall y, In y (x :: l) -> 0 < y) ->
+  Spec.SeqSet.ascendingb (x :: l) = true -> x <= last (x :: l) 0 /\ Spec.SeqSet.max_uid (x :: l) = last (x :: l) 0.
+Proof.
+  induction l as [|y l IH]; intros A x P Ax.
+  - cbn. split; [lia|]. specialize (P x (or_introl eq_refl)). lia.
+  - cbn [Spec.SeqSet.ascendingb] in Ax. apply andb_true_iff in Ax as [Lt Ay]. apply Z.ltb_lt in Lt.
+    assert (Al : Spec.SeqSet.ascendingb l = true).
+    { cbn [Spec.SeqSet.ascendingb] in Ay. destruct l; [reflexivity|]. now apply andb_true_iff in Ay as [_ ?]. }
+    destruct (IH Al y (fun z Hz => P z (or_intror Hz)) Ay) as [Le Mx].
+    change (last (x :: y :: l) 0) with (last (y :: l) 0).
+    unfold Spec.SeqSet.max_uid in *. cbn [fold_right] in *. split; lia.
+Qed.
+
+Lemma last_is_max mb : mb_ok mb = true -> last_uid mb = max_uid mb.
+Proof.
+  unfold mb_ok. intros H. apply andb_true_iff in H as [H P]. apply andb_true_iff in H as [_ A].
+  unfold last_uid, max_uid. destruct mb as [|m0 mb]; [reflexivity|].
+  assert (L : forall l d, s_uid (last l d) = last (map s_uid l) (s_uid d)).
+  { induction l as [|a l IHl]; intros d; [reflexivity|]. destruct l; [reflexivity|]. exact (IHl d). }
+  rewrite L. cbn [map s_uid] in *.
+  assert (Pz : forall y, In y (s_uid m0 :: map s_uid mb) -> 0 < y).
+  { intros y Hy. change (s_uid m0 :: map s_uid mb) with (map s_uid (m0 :: mb)) in Hy. apply in_map_iff in Hy as (z & <- & Hz).
+    rewrite forallb_forall in P. apply Z.ltb_lt. now apply P. }
+  assert (Al : Spec.SeqSet.ascendingb (map s_uid mb) = true).
+  { cbn [Spec.SeqSet.ascendingb] in A. destruct (map s_uid mb); [reflexivity|]. now apply andb_true_iff in A as [_ ?]. }
+  destruct (asc_last _ Al _ Pz A) as [_ E]. now rewrite E.
 Qed.
 
 Lemma print_not_blank ks mb : wf_prog ks = true -> classify ks mb = None -> trim_space (print_prog ks) <> [].
@@ -63,19 +115,19 @@ Qed.
 Lemma msc_eq T m toks : matches_search_criteria T m toks = eval_tokens T m toks.
 Proof. destruct toks; reflexivity. Qed.
 
-Lemma collect_spec (P : Z * smsg -> bool) toks l :
-  (forall im, In im l -> eval_tokens go_text (to_msg im) toks = Some (P im)) ->
-  collect_seq go_text toks (map to_msg l) = Some (map to_msg (filter P l)).
+Lemma collect_spec mb (P : Z * smsg -> bool) toks l :
+  (forall im, In im l -> eval_tokens go_text (to_msg mb im) toks = Some (P im)) ->
+  collect_seq go_text toks (map (to_msg mb) l) = Some (map (to_msg mb) (filter P l)).
 Proof.
   induction l as [|im l IH]; intros H; [reflexivity|].
   cbn [map collect_seq]. rewrite msc_eq, (H im) by now left. rewrite IH by (intros; apply H; now right).
   cbn [filter]. destruct (P im); reflexivity.
 Qed.
 
-Lemma map_seq_to_msg l : map m_seq (map to_msg l) = map fst l.
-Proof. induction l as [|[i m] l IH]; [reflexivity|]. cbn [map to_msg m_seq fst]. now rewrite IH. Qed.
-Lemma map_uid_to_msg l : map m_uid (map to_msg l) = map (fun '(i, m) => s_uid m) l.
-Proof. induction l as [|[i m] l IH]; [reflexivity|]. cbn [map to_msg m_uid]. now rewrite IH. Qed.
+Lemma map_seq_to_msg mb l : map m_seq (map (to_msg mb) l) = map fst l.
+Proof. induction l as [|[i m] l IH]; [reflexivity|]. cbn [map to_msg to_msg_in m_seq fst]. now rewrite IH. Qed.
+Lemma map_uid_to_msg mb l : map m_uid (map (to_msg mb) l) = map (fun '(i, m) => s_uid m) l.
+Proof. induction l as [|[i m] l IH]; [reflexivity|]. cbn [map to_msg to_msg_in m_uid]. now rewrite IH. Qed.
 
 Lemma key_supported mb k : key_class k mb = None -> supported k = true.
 Proof.
@@ -95,15 +147,15 @@ Qed.
 (** the evaluator on the printed program selects exactly the specified entries *)
 Lemma evaluate_exact ks mb : wf_prog ks = true -> mb_ok mb = true -> classify ks mb = None ->
   evaluate_search_criteria go_text (to_msgs mb) (print_prog ks)
-  = Some (map to_msg (filter (fun '(i, m) => spec_all (Z.of_nat (length mb)) (max_uid mb) ks i m) (numbered mb))).
+  = Some (map (to_msg mb) (filter (fun '(i, m) => spec_all (Z.of_nat (length mb)) (max_uid mb) ks i m) (numbered mb))).
 Proof.
   intros W Hmb C. unfold evaluate_search_criteria.
   pose proof (print_not_blank ks mb W C) as NB. destruct (trim_space (print_prog ks)) eqn:E; [congruence|]. clear E NB.
   assert (W' : forallb wf_key ks = true) by (unfold wf_prog in W; now destruct ks).
   unfold print_prog. rewrite parse_print by (eapply prog_toks_ok; eassumption).
   unfold to_msgs.
-  apply (collect_spec (fun '(i, m) => spec_all (Z.of_nat (length mb)) (max_uid mb) ks i m)).
-  intros [i sm] Hin. now apply eval_tokens_prog with (mb := mb).
+  apply (collect_spec mb (fun '(i, m) => spec_all (Z.of_nat (length mb)) (max_uid mb) ks i m)).
+  intros [i sm] Hin. rewrite <- (last_is_max mb Hmb). now apply eval_tokens_prog.
 Qed.
 
 (** SEARCH (message.evaluateSearchCriteria on the printed program) returns
@@ -150,6 +202,10 @@ Proof.
   intros Hx. rewrite Forall_forall in F. specialize (F x Hx). lia.
 Qed.
 
+Lemma fill_max_proj (by_uid : bool) msgs :
+  map (if by_uid then m_uid else m_seq) (fill_max msgs) = map (if by_uid then m_uid else m_seq) msgs.
+Proof. unfold fill_max. rewrite map_map. apply map_ext. intros m. destruct by_uid; reflexivity. Qed.
+
 (** ascending, duplicate free, inside the mailbox: SEARCH (sequence numbers) and
     UID SEARCH (UIDs), for every argument list, text semantics and listing *)
 Theorem selected_ascending T args (by_uid : bool) msgs l :
@@ -162,6 +218,7 @@ Proof.
   match type of H with (if ?c then _ else _) = _ => destruct c; [discriminate|] end.
   match type of H with match ?e with _ => _ end = _ => destruct e as [l'|] eqn:E; [|discriminate] end.
   injection H as <-. unfold evaluate_search_criteria in E.
+  rewrite <- (fill_max_proj by_uid msgs) in S |- *.
   destruct (collect_sorted _ _ _ _ _ S E) as [A B]. repeat split; try assumption. now apply sorted_nodup.
 Qed.
 
